@@ -210,6 +210,11 @@ pub fn tag_body(e: &Elem, sp: &Sp, multiline: bool) -> String {
             attrs.push(format!("c={q}note: skip unwrap-block = x{other}s{q}"));
         }
     }
+    if e.style % 89 == 0 {
+        // a very long comment: tags of more than 1 KiB / 4 KiB are tags like any other
+        let n = if e.style % 2 == 0 { 1100 } else { 4200 };
+        attrs.push(format!("c2={q}{}{q}", "long comment ".repeat(n / 13)));
+    }
     r.shuffle(&mut attrs);
     let pad_l = if r.chance(1, 3) { " " } else { "" };
     let pad_r = if r.chance(1, 3) { " " } else { "" };
@@ -323,6 +328,12 @@ pub struct GenCfg {
     /// closing tag (before it): geometry in which the unwrap extent is unspecified, used only
     /// by relational monitors (C19 idempotence / composition, C01)
     pub tagline_tags: bool,
+    /// "big" documents: now and then very long lines, long runs of blank lines, characters that
+    /// look like blanks but are not (NBSP, form feed, vertical tab, zero-width space), characters
+    /// that need escaping in JSON
+    pub big: bool,
+    /// characters that must not occur in generated text (the non-space delimiter characters)
+    pub avoid: String,
 }
 
 pub const WORDS: [&str; 10] = [
@@ -359,6 +370,8 @@ impl GenCfg {
             wrapper_tags: false,
             inline_tabs: false,
             tagline_tags: false,
+            big: false,
+            avoid: String::new(),
         }
     }
 }
@@ -374,6 +387,21 @@ fn code_line(r: &mut Rng, cfg: &GenCfg) -> String {
 }
 
 fn code_line_plain(r: &mut Rng, cfg: &GenCfg) -> String {
+    if cfg.big && r.chance(1, 6) {
+        let w = match r.below(8) {
+            0 => "x".repeat(*r.pick(&[255usize, 256, 300, 1000, 4096, 5000, 70_000])),
+            1 => format!("a\u{a0}b\u{a0}"),
+            2 => "\u{a0}".to_string(),
+            3 => "\x0cpage();".to_string(),
+            4 => "v\x0bt();\x0b".to_string(),
+            5 => "zero\u{200b}width\u{200b}".to_string(),
+            6 => "say(\"hi\", 'x', \"C:\\dir\\\");".to_string(),
+            _ => "ctl\u{1}\u{7f}\u{8}();".to_string(),
+        };
+        if !w.chars().any(|c| cfg.avoid.contains(c)) {
+            return w;
+        }
+    }
     if cfg.multibyte && r.chance(1, 4) {
         let w = r.pick(&MB_WORDS).to_string();
         if cfg.words.len() == WORDS.len() || SAFE_WORDS.contains(&w.as_str()) {
@@ -384,6 +412,14 @@ fn code_line_plain(r: &mut Rng, cfg: &GenCfg) -> String {
 }
 
 fn blank_line(r: &mut Rng, cfg: &GenCfg) -> String {
+    if cfg.big && r.chance(1, 4) {
+        // long runs of blank lines / very long whitespace-only lines
+        return match r.below(3) {
+            0 => "\n".repeat(r.range(4, 12)),
+            1 => " ".repeat(*r.pick(&[17usize, 255, 256, 1000])),
+            _ => format!("{}\n\t\n  \n\n", cfg.unit),
+        };
+    }
     match r.below(4) {
         0 => cfg.unit.to_string(),
         1 => " ".to_string(),
